@@ -60,7 +60,9 @@ RULE = ("every case runs in one of 8 reader time zones (UTC, fixed offsets, dayl
 TRUSTED = ["pprint.pformat, json.dumps/loads, str(), datetime.(utc)fromtimestamp().isoformat(), bytes repr: parameters of the model, "
            "tabulated by the harness from the standard library on each case's values",
            "in-process execution of _main / filter.main with patched stdin/stdout/argv stands for the console scripts"]
-ASSUMPTIONS = ["messages are what json.loads returns (dict with distinct str keys, JSON values)",
+ASSUMPTIONS = ["eliot.filter is read as one of the 'bundled readers' that must survive foreign input: it aborts at the first line that is not JSON "
+               "(known finding {tool: eliot.filter, line: not-json}); JSON values that are not objects are only fed to expressions that do not look inside J",
+               "messages are what json.loads returns (dict with distinct str keys, JSON values)",
                "compact_single_line: no key contains a newline and neither str(task_uuid), str(level element), the timestamp text nor json.dumps output does",
                "cli_total: json.loads raises only ValueError/RecursionError; datetime and pprint.pformat raise nothing outside (TypeError, ValueError, "
                "OverflowError, OSError) - the pformat part fails for values nested a few hundred deep (RecursionError): finding {line: deeply-nested-value}"]
@@ -385,7 +387,8 @@ def real_filter(expr, lines):
         rc = efilter.main(fs)
         return {"out": fs.stdout.getvalue(), "abort": None, "rc": rc}
     except BaseException as e:  # noqa
-        return {"out": fs.stdout.getvalue(), "abort": type(e).__name__, "rc": None}
+        # json's JSONDecodeError (and UnicodeDecodeError) are ValueErrors: the class the model speaks of
+        return {"out": fs.stdout.getvalue(), "abort": "ValueError" if isinstance(e, ValueError) else type(e).__name__, "rc": None}
 
 
 def real_format_twice(m, compact_first, local):
@@ -726,15 +729,42 @@ FILTERS = [
 def oracle_filter(ctx, case, obs):
     expr, sel, val = FILTERS[case["filter"]]
     lines = case["lines_text"]
+
+    def is_json(l):
+        try:
+            json.loads(l)
+            return True
+        except ValueError:
+            return False
+
+    foreign = [l for l in lines if not is_json(l)]
     if obs["abort"] is not None or obs["rc"] != 0:
-        ctx.violation("eliot.filter %r did not finish normally on Eliot lines (%s, rc=%r)" % (expr, obs["abort"], obs["rc"]), case, key=None)
+        if foreign and obs["abort"] == "ValueError":
+            key = {"tool": "eliot.filter", "line": "not-json"}
+            ctx.violation("eliot.filter %r aborts with %s at the input line %r; the lines after it are never read" % (expr, obs["abort"], foreign[0]),
+                          dict(case, lines_text=[foreign[0]]), key=key)
+            ctx.count("oracle-failed:" + json.dumps(key, sort_keys=True))
+        else:
+            ctx.violation("eliot.filter %r did not finish normally (%s, rc=%r)" % (expr, obs["abort"], obs["rc"]), case, key=None)
         return
+    lines = [l for l in lines if is_json(l)]   # what a filter that survives foreign text writes for it is not laid down
     outs = obs["out"].split("\n")
     if outs[-1] != "":
         ctx.violation("eliot.filter output does not end with a newline", case, key=None)
         return
     outs = outs[:-1]
     want = [val(json.loads(l)) for l in lines if not sel(json.loads(l))]
+    if foreign:
+        # keep, in order, the output lines that account for the JSON input lines; whatever else was written concerns the foreign ones
+        kept, i = [], 0
+        for o in outs:
+            try:
+                if i < len(want) and same(json.loads(o), json.loads(json.dumps(want[i]))):
+                    kept.append(o)
+                    i += 1
+            except ValueError:
+                pass
+        outs = kept
     if len(outs) != len(want):
         ctx.violation("eliot.filter %r wrote %d lines for %d input lines of which %d are selected for SKIP" % (
             expr, len(outs), len(lines), len(lines) - len(want)), case, key=None)
@@ -788,7 +818,17 @@ def gen_cases(ctx):
             if not has_surrogate(m):
                 ms.append(m)
         texts = [json.dumps(m, ensure_ascii=rng.random() < 0.5) + "\n" for m in ms]
+        if FILTERS[i % len(FILTERS)][0] in ("J", "SKIP"):
+            # these expressions do not look inside J: any JSON value is fine for them, and foreign text is part of the streams
+            for _ in range(rng.randint(0, 2)):
+                texts.insert(rng.randrange(len(texts) + 1), rng.choice(["[1, 2]\n", "5\n", "null\n", "\"s\"\n", "{}\n", "2.5\n"]))
+            if rng.random() < 0.35:
+                texts.insert(rng.randrange(len(texts) + 1), rng.choice(["not json\n", "{\n", "\n", "{'a': 1}\n"]))
         cases.append(dict(kind="filter", filter=i % len(FILTERS), lines_text=texts, tz=rng.choice(TZS)))
+    # a line that is not JSON between two Eliot lines, identity filter: on every seed
+    cases.append(dict(kind="filter", filter=0, tz=TZS[0],
+                      lines_text=['{"task_uuid": "u", "task_level": [1], "timestamp": 1.0}\n', "not json\n",
+                                  '{"task_uuid": "u", "task_level": [2], "timestamp": 2.0}\n']))
     # summer and winter noon in a daylight-saving zone, both formatters, UTC rendering: on every seed
     for ts in (1625140800.25, 1610712000.25):
         for compact in (False, True):
@@ -820,7 +860,11 @@ def _model_case(c):
     for s in c["lines_text"]:
         b = s.encode("utf-8")
         d = line_case(b, table)
-        J = json.loads(s)
+        try:
+            J = json.loads(s)
+        except ValueError:
+            lines.append(d)   # not JSON: the program never gets to the expression
+            continue
         try:
             if sel(J):
                 d["expr"] = "skip"
